@@ -620,6 +620,10 @@ pub fn c13(rec: &mut Rec, lm: &Landmarks, rng: &mut Rng, thorough: bool) {
         "", " ", "2020", "0000-00-00T00:00:00", "9999-12-31T23:59:59.999999999 QZSST", "2020-02-30T00:00:00", "2020-13-01T00:00:00", "2020-01-01T25:00:00",
         "2020-01-01T00:60:00", "JD NaN TAI", "SEC inf TAI", "MJD -inf UTC", "SEC 1e400 TT", "JD 123 €a", "éééé", "-€", "SEC 12.5 GPST", "2020-01-01T00:00:00.1234567891 UTC",
         "%Y%Y%Y%Y%Y%Y%Y%Y%Y%Y%Y%Y%Y%Y%Y%Y", "%Y%Y%Y%Y%Y%Y%Y%Y%Y%Y%Y%Y%Y%Y%Y%Y%Y", "03 2020", "2147483647-01-01", "99999999999-01-01T00:00:00",
+        // well-formed, out of range: every field at its first invalid value
+        "2017-01-14T00:31:55+01:60", "2017-01-14T00:31:55-24:00", "2017-01-14T00:31:55+23:59", "2017-01-14T24:31:55", "2017-01-14T00:31:55.5+00:60 TAI",
+        "2017-00-14T00:31:55", "2017-01-00T00:31:55", "2017-01-32T00:31:55", "2017-06-31T00:31:55", "2019-02-29T00:31:55 TT", "2100-02-29T00:00:00",
+        "2017-01-14T00:60:55", "2017-01-14T00:31:61", "2017-01-14T12:31:60", "2016-12-30T23:59:60", "2015-12-31T23:59:60 UTC", "2016-06-30T23:59:60",
     ];
     let fmts: Vec<&str> = vec![
         "%Y-%m-%dT%H:%M:%S.%f %T", "%Y-%m-%d", "%a, %d %b %Y %H:%M:%S", "%Y-%j", "%A, %d %B %Y %H:%M:%S", "%Y-%m-%dT%H:%M:%S.%f%z", "%w %Y", "%y-%m-%d",
@@ -681,6 +685,50 @@ pub fn c13(rec: &mut Rec, lm: &Landmarks, rng: &mut Rng, thorough: bool) {
                 let r = with_deadline(DEADLINE_S, move || Epoch::from_format_str(&o, &ff).is_ok());
                 total_ev(m.rec, "format_str", &s, Some(&f), r);
             }
+        }
+    }
+    // all-numeric formats: well-formed sentences with every field valid, or one field at / past its limit
+    let numfmts = ["%Y-%m-%dT%H:%M:%S", "%Y-%jT%H:%M:%S", "%H:%M:%S %d/%m/%Y", "%Y %j", "%d.%m.%Y %H:%M", "%Y-%m-%d", "%Y/%m/%d %H:%M:%S.%f", "%j-%Y %M:%S"];
+    for (fi, f) in numfmts.iter().enumerate() {
+        for rep in 0..(if thorough { 400 } else { 40 }) {
+            // field values: valid, then one of them replaced by a boundary value
+            let mut y = rng.range_i64(1, 9999);
+            let mut mo = 1 + rng.below(12) as i64;
+            let mut d = 1 + rng.below(28) as i64;
+            let (mut hh, mut mi, mut ss, mut j) = (rng.below(24) as i64, rng.below(60) as i64, rng.below(60) as i64, 1 + rng.below(365) as i64);
+            match rep % 12 {
+                1 => mo = *rng.pick(&[0i64, 13, 12, 1, 99]),
+                2 => d = *rng.pick(&[0i64, 31, 32, 30, 29]),
+                3 => hh = *rng.pick(&[23i64, 24, 25, 99]),
+                4 => mi = *rng.pick(&[59i64, 60, 61]),
+                5 => ss = *rng.pick(&[59i64, 60, 61, 99]),
+                6 => j = *rng.pick(&[0i64, 1, 365, 366, 367, 999]),
+                7 => {
+                    mo = 2;
+                    d = *rng.pick(&[28i64, 29, 30]);
+                    y = *rng.pick(&[1900i64, 2000, 2019, 2020, 2100]);
+                }
+                8 => {
+                    mo = *rng.pick(&[4i64, 6, 9, 11]);
+                    d = 31;
+                }
+                _ => {}
+            }
+            let s = f
+                .replace("%Y", &format!("{y:04}"))
+                .replace("%m", &format!("{mo:02}"))
+                .replace("%d", &format!("{d:02}"))
+                .replace("%H", &format!("{hh:02}"))
+                .replace("%M", &format!("{mi:02}"))
+                .replace("%S", &format!("{ss:02}"))
+                .replace("%f", &format!("{:09}", rng.below(1_000_000_000)))
+                .replace("%j", &format!("{j:03}"));
+            m.rec.episode();
+            let o = s.clone();
+            let ff = f.to_string();
+            let r = with_deadline(DEADLINE_S, move || Epoch::from_format_str(&o, &ff).map_err(|_| ()));
+            m.rec.ev("fmt_parse", format!("\"fmt\":{},\"s\":{},\"res\":{}", jstr(f), jstr(&s), jparsed_epoch(&r)), true);
+            let _ = fi;
         }
     }
     // random strings
